@@ -8,6 +8,7 @@ import (
 	"encoding/json"
 	"errors"
 	"fmt"
+	"math/big"
 	"math/rand/v2"
 	"runtime/debug"
 	"strings"
@@ -38,6 +39,7 @@ type Config struct {
 	Curve          string `json:"curve"`
 	PlanSeed       uint64 `json:"plan_seed"`
 	RejectPerMille int    `json:"reject_per_mille"`
+	Warp           bool   `json:"warp,omitempty"`         // the pluggable curve maps candidates to scalars at the edges of the valid range (elliptic curves only)
 	WrapInvalid    bool   `json:"wrap_invalid,omitempty"` // retryable faults are returned as an error wrapping ErrInvalidKey
 	Ops            []Op   `json:"ops"`
 }
@@ -57,6 +59,8 @@ type world struct {
 	wrapped   bool
 	permFired bool
 	totalRej  int
+	order     *big.Int // group order of the curve, for the candidate mapping
+	warped    int
 	opIndex   int
 	totalPerm int
 }
@@ -92,6 +96,81 @@ func (w *world) permanent(cand []byte) bool {
 		h = kernel.SplitMix64(h ^ v)
 	}
 	return h%uint64(w.permAt) == 0
+}
+
+var two256 = new(big.Int).Lsh(big.NewInt(1), 256)
+
+// warp is the candidate mapping of the pluggable curve (Config.Warp): a deterministic function of the candidate and, where
+// known, of the parent's scalar, that sends most candidates to the edges of the valid range — zero, the group order, the
+// negative of the parent scalar (sum zero / point at infinity), values whose sum with the parent wraps around the order or
+// stays just below it, the parent scalar itself (point doubling). The reference model applies the same mapping, so what is
+// checked is slip10's control flow plus the real curve arithmetic exactly where HMAC outputs never land.
+func (w *world) warp(kind string, il []byte, parent *big.Int) []byte {
+	if !w.cfg.Warp || w.order == nil {
+		return il
+	}
+	h := kernel.Mix(w.cfg.PlanSeed, 777)
+	for i := 0; i+8 <= len(il); i += 8 {
+		var v uint64
+		for j := 0; j < 8; j++ {
+			v = v<<8 | uint64(il[i+j])
+		}
+		h = kernel.SplitMix64(h ^ v)
+	}
+	n := w.order
+	small := big.NewInt(int64(1 + (h>>16)%1000))
+	var c *big.Int
+	switch sel := h % 16; {
+	case sel < 5:
+		return il
+	case sel == 9:
+		c = new(big.Int)
+	case sel == 10:
+		c = new(big.Int).Set(n)
+	case sel == 11:
+		c = new(big.Int).Sub(two256, big.NewInt(1))
+	case sel == 13:
+		c = big.NewInt(1)
+	case sel == 14:
+		c = new(big.Int).Sub(n, big.NewInt(1))
+	case kind == "master":
+		switch sel {
+		case 5:
+			c = new(big.Int).Add(n, small)
+		case 6:
+			c = small
+		case 7:
+			c = new(big.Int).Sub(n, small)
+		case 8:
+			c = new(big.Int).Lsh(big.NewInt(1), 255)
+		default:
+			return il
+		}
+	case parent != nil:
+		switch sel {
+		case 5:
+			c = new(big.Int).Sub(n, parent) // sum = 0: invalid key / point at infinity
+		case 6:
+			c = new(big.Int).Sub(n, parent)
+			c.Add(c, small) // the sum wraps around the order
+		case 7:
+			c = new(big.Int).Sub(n, parent)
+			c.Sub(c, small) // the sum stays just below the order
+		case 8:
+			c = new(big.Int).Set(parent) // shift = own scalar: point doubling on the public side
+		case 12:
+			c = small
+		default:
+			c = new(big.Int).Sub(n, small)
+		}
+		if c.Sign() < 0 {
+			c.Add(c, n)
+		}
+	default:
+		return il
+	}
+	w.warped++
+	return c.FillBytes(make([]byte, 32))
 }
 
 func (w *world) decide(cand []byte) error {
@@ -132,32 +211,46 @@ func (c faultCurve) NewPrivateKey(buf []byte) (slip10.Key, error) {
 	if err := c.w.decide(buf); err != nil {
 		return nil, err
 	}
-	k, err := c.inner.NewPrivateKey(buf)
+	k, err := c.inner.NewPrivateKey(c.w.warp("master", buf, nil))
 	if err != nil {
 		return nil, err
 	}
-	return &faultKey{c.w, k}, nil
+	return newFaultKey(c.w, k, nil), nil
 }
 
 type faultKey struct {
-	w     *world
-	inner slip10.Key
+	w      *world
+	inner  slip10.Key
+	scalar *big.Int // the private scalar, when the double knows it (private keys, and public keys derived from them)
+}
+
+func newFaultKey(w *world, inner slip10.Key, scalar *big.Int) *faultKey {
+	if inner.IsPrivate() && w.order != nil {
+		scalar = new(big.Int).SetBytes(inner.Bytes())
+	}
+	return &faultKey{w, inner, scalar}
 }
 
 func (k *faultKey) Bytes() []byte   { return k.inner.Bytes() }
 func (k *faultKey) IsPrivate() bool { return k.inner.IsPrivate() }
 func (k *faultKey) Public() slip10.Key {
-	return &faultKey{k.w, k.inner.Public()}
+	return &faultKey{k.w, k.inner.Public(), k.scalar}
 }
 func (k *faultKey) Shift(b []byte) (slip10.Key, error) {
 	if err := k.w.decide(b); err != nil {
 		return nil, err
 	}
-	c, err := k.inner.Shift(b)
+	shift := k.w.warp("child", b, k.scalar)
+	c, err := k.inner.Shift(shift)
 	if err != nil {
 		return nil, err
 	}
-	return &faultKey{k.w, c}, nil
+	var child *big.Int
+	if k.scalar != nil && k.w.order != nil {
+		child = new(big.Int).Add(k.scalar, new(big.Int).SetBytes(shift))
+		child.Mod(child, k.w.order)
+	}
+	return newFaultKey(k.w, c, child), nil
 }
 
 func curves(name string) (slip10.Curve, *ref.SlipCurve) {
@@ -219,6 +312,9 @@ func Run(cfg *Config) proto.End {
 	r := &runState{cfg: cfg, w: &world{cfg: cfg}, hash: 14695981039346656037}
 	r.res.Faults, r.res.Probes, r.res.Tags = map[string]int{}, map[string]int{}, map[string]string{}
 	realCurve, modelCurve := curves(cfg.Curve)
+	if modelCurve.EC != nil {
+		r.w.order = modelCurve.EC.N
+	}
 	fc := faultCurve{r.w, realCurve}
 	for i := range cfg.Ops {
 		if r.stop {
@@ -240,10 +336,14 @@ func Run(cfg *Config) proto.End {
 	if r.w.totalPerm > 0 {
 		r.res.Faults["permanent_error"] = r.w.totalPerm
 	}
-	r.res.Nontriv = r.w.totalRej > 0 || r.w.totalPerm > 0
+	r.res.Nontriv = r.w.totalRej > 0 || r.w.totalPerm > 0 || r.w.warped > 0
 	r.res.Tags["curve"] = cfg.Curve
 	r.res.Tags["reject_per_mille"] = fmt.Sprint(cfg.RejectPerMille)
 	r.res.Tags["invalid_key_wrapped"] = fmt.Sprint(cfg.WrapInvalid)
+	r.res.Tags["candidate_mapping"] = fmt.Sprint(cfg.Warp)
+	if r.w.warped > 0 {
+		r.res.Faults["candidate_mapped_to_range_edge"] = r.w.warped
+	}
 	b, _ := json.Marshal(map[string]any{"curve": cfg.Curve, "reject_per_mille": cfg.RejectPerMille, "ops": r.log})
 	r.res.Sample = b
 	return r.res
@@ -253,6 +353,9 @@ func (r *runState) step(i int, op *Op, fc faultCurve, mc *ref.SlipCurve) {
 	w := r.w
 	w.calls, w.rejects, w.permAt, w.wrapped, w.permFired, w.opIndex = 0, 0, op.PermAt, op.Wrapped, false, i
 	mf := &ref.Faults{Reject: w.reject, Permanent: w.permanent}
+	if r.cfg.Warp {
+		mf.Warp = w.warp
+	}
 	var (
 		real     *slip10.ExtendedKey
 		err      error
@@ -451,6 +554,7 @@ func Gen(seed uint64, tier string) *Config {
 		c.RejectPerMille = 0 // fault-free configuration, judged by the same oracle
 	}
 	c.WrapInvalid = r.IntN(4) == 0
+	c.Warp = c.Curve != "ed25519" && r.IntN(3) == 0
 	maxOps := 8
 	if c.Curve == "ed25519" {
 		maxOps = 14
